@@ -31,6 +31,9 @@ MIN_OBLIGATIONS = 14
 
 
 def run(ctx: Ctx):
+    from .. import memo as _memo
+
+    ctx.section(_memo.check_memo_keys, ctx, ('bqm.', 'qlassfun.QlassF.to_bqm', 'boolopt.'))
     repo = ctx.repo
     check_visitor(ctx, repo.func("bqm.SympyToBQM.visit"))
     check_to_bqm(ctx, repo.func("bqm.to_bqm"))
